@@ -445,7 +445,7 @@ func VH_c10_prefix_set() {
 		{"10.0.0.0/8", 8, [3]bool{true, false, false}}}
 	r := routes[vChoice("route", len(routes))]
 	nlri, _ := bgp.NewIPAddrPrefix(netip.MustParsePrefix(r.pfx))
-	p := &Path{info: &originInfo{nlri: nlri, nlriString: r.pfx, source: c02srcs[0]}, family: bgp.RF_IPv4_UC}
+	p := &Path{info: &originInfo{nlri: nlri, nlriString: r.pfx, source: c10src}, family: bgp.RF_IPv4_UC}
 	opt := MATCH_OPTION_ANY
 	if vBool("invert") {
 		opt = MATCH_OPTION_INVERT
@@ -475,7 +475,7 @@ func VH_c10_prepend_boundary() {
 	nlri, _ := bgp.NewIPAddrPrefix(netip.MustParsePrefix("10.1.0.0/16"))
 	attrs := []bgp.PathAttributeInterface{bgp.NewPathAttributeOrigin(0),
 		bgp.NewPathAttributeAsPath([]bgp.AsPathParamInterface{bgp.NewAs4PathParam(bgp.BGP_ASPATH_ATTR_TYPE_SEQ, append([]uint32(nil), old...))})}
-	stored := &Path{info: &originInfo{nlri: nlri, nlriString: "10.1.0.0/16", source: c02srcs[0]}, pathAttrs: attrs, family: bgp.RF_IPv4_UC}
+	stored := &Path{info: &originInfo{nlri: nlri, nlriString: "10.1.0.0/16", source: c10src}, pathAttrs: attrs, family: bgp.RF_IPv4_UC}
 	p := stored.Clone(false)
 	p.PrependAsn(asn, repeat, false)
 	var flat []uint32
@@ -498,3 +498,5 @@ func VH_c10_prepend_boundary() {
 	vAssert(len(so) == k && so[0] == old[0], "prepending on a copy changed the stored route")
 	vReach("end")
 }
+
+var c10src = &PeerInfo{AS: 65001, LocalAS: 65000, ID: netip.AddrFrom4([4]byte{1, 1, 1, 1}), Address: netip.AddrFrom4([4]byte{10, 0, 0, 1})}
